@@ -244,7 +244,7 @@ def build_locale():
         return None
 
 
-CLI_WRAPS = ["fopen", "open", "open64", "fdopen", "read", "close", "posix_fadvise", "abort", "__assert_fail", "exit", "fileno", "fstat", "isatty", "setvbuf", "setlocale", "strerror"]
+CLI_WRAPS = ["fopen", "open", "open64", "fdopen", "read", "close", "lseek", "posix_fadvise", "abort", "__assert_fail", "exit", "fileno", "fstat", "isatty", "setvbuf", "setlocale", "strerror"]
 
 
 def build_cli(ndebug=False):
